@@ -1,10 +1,11 @@
 (** C19 — Admission, scheduler and binder agree on GPU requests.
-    Statements only; proofs are in Proofs/GpuRequest.v. [pf] is the
+    Statements only; proofs are in Proofs/GpuRequest.v and Proofs/GpuMaterialise.v. [pf] is the
     strconv.ParseFloat oracle: every statement holds for all oracles
     (C19_same_interpretation and C19_sharing_implies_checked under the contract
     that parsing the empty string fails with value 0). *)
 From Coq Require Import String ZArith List.
-From KaiV Require Import Model.Strconv Model.GpuRequest Model.GpuRequestSpec Proofs.GpuRequest.
+From KaiV Require Import Model.Strconv Model.GpuRequest Model.GpuRequestSpec Model.GpuMaterialise
+     Proofs.GpuRequest Proofs.GpuMaterialise.
 Import ListNotations.
 
 (** Every accepted request denotes finite positive quantities: a finite
@@ -91,3 +92,128 @@ Theorem C19_nonvacuous :
   /\ g_count (scheduler_interpret ex_pf ex_pod) = 2%Z.
 Proof. exact ex_accepted. Qed.
 Print Assumptions C19_nonvacuous.
+
+(** * Per-container selection: what admission selects is what the binder materialises.
+    [selected_container] is GetFractionContainerRef (annotation gpu-fraction-container-name:
+    init containers first, then regular containers, first match; no annotation: regular
+    container 0), [prebind] the binder's gpusharing PreBind over the config maps of the
+    namespace, [eff_env] the kubelet's resolution of a container's environment
+    (Model/GpuMaterialise.v).  All statements are for every pod: any number of regular
+    and init containers, any names, any annotation strings, any index rendering. *)
+
+(** The selection follows the annotation: a named container carries that name; without
+    the annotation it is the first regular container. *)
+Theorem C19_selection_is_by_name :
+  forall (p : gpod) (ty : ctype) (i : nat) (c : container),
+    selected_container p = Selected ty i c ->
+    match a_cname p with
+    | Some name => c_name c = name
+    | None => ty = RegularC /\ i = 0%nat
+    end.
+Proof. exact selection_is_by_name. Qed.
+Print Assumptions C19_selection_is_by_name.
+
+(** After admission's mutation the selected container is the same container: same
+    list (regular / init), same index, same name. *)
+Theorem C19_selection_survives_mutation :
+  forall (idx : ctype -> nat -> string) (fresh : string) (p : gpod) (ty : ctype) (i : nat) (c : container),
+    selected_container p = Selected ty i c ->
+    exists c', selected_container (mutate idx fresh p) = Selected ty i c' /\ c_name c' = c_name c.
+Proof. exact selection_survives_mutation. Qed.
+Print Assumptions C19_selection_survives_mutation.
+
+(** Admission, then the binder: the selected container of the admitted pod references the
+    pod's GPU-sharing config maps, PreBind succeeds, and the container then starts with
+    exactly the granted devices (NVIDIA_VISIBLE_DEVICES) and exactly the granted portion
+    (GPU_PORTION, RUNAI_NUM_OF_GPUS) — whatever config maps of the pod exist already,
+    with or without CDI device names, for any granted device list and portion string. *)
+Theorem C19_selected_container_materialised :
+  forall (idx : ctype -> nat -> string) (fresh : string) (p : gpod) (ty : ctype) (i : nat) (c : container)
+         (s : cmstore) (cdi : bool) (ids : list string) (portion : string),
+    requests_gpu_fraction p = true -> selected_container p = Selected ty i c ->
+    carries_sharing_refs idx (mutate idx fresh p) = true
+    /\ exists s', prebind idx true cdi ids portion (mutate idx fresh p) s = Some s'
+                  /\ materialised (mutate idx fresh p) s' (visible_devices cdi ids) portion = true.
+Proof. exact selected_container_materialised. Qed.
+Print Assumptions C19_selected_container_materialised.
+
+(** The mutation leaves every other container, regular or init, exactly as it was. *)
+Theorem C19_other_containers_untouched :
+  forall (idx : ctype -> nat -> string) (fresh : string) (p : gpod) (ty : ctype) (i : nat) (c : container)
+         (ty' : ctype) (j : nat),
+    selected_container p = Selected ty i c -> (ty', j) <> (ty, i) ->
+    nth_error (conts ty' (mutate idx fresh p)) j = nth_error (conts ty' p) j.
+Proof. exact mutate_other_containers. Qed.
+Print Assumptions C19_other_containers_untouched.
+
+(** The binder writes two config maps only: a container that references neither the
+    capabilities map nor the -evar map of the selected container starts with the same
+    environment as before (so no other container gets the grant unless it already
+    referenced these maps: by the previous theorem admission adds no such reference). *)
+Theorem C19_binder_touches_selected_maps_only :
+  forall (idx : ctype -> nat -> string) (cdi : bool) (ids : list string) (portion : string)
+         (p : gpod) (s s' : cmstore) (ty : ctype) (i : nat) (c : container) (prefix : string),
+    selected_container p = Selected ty i c -> a_cm p = Some prefix ->
+    prebind idx true cdi ids portion p s = Some s' ->
+    forall (c2 : container) (var : string),
+      references c2 (cap_name idx prefix ty i) = false ->
+      references c2 (evar_name (cap_name idx prefix ty i)) = false ->
+      eff_env s' c2 var = eff_env s c2 var.
+Proof. exact prebind_frame. Qed.
+Print Assumptions C19_binder_touches_selected_maps_only.
+
+(** Idempotence keeps all of this: mutating an admitted pod again selects the same
+    container, keeps the references and the binder still materialises the grant in it. *)
+Theorem C19_materialised_after_repeated_mutation :
+  forall (idx : ctype -> nat -> string) (fresh fresh' : string) (p : gpod) (ty : ctype) (i : nat) (c : container)
+         (s : cmstore) (cdi : bool) (ids : list string) (portion : string),
+    requests_gpu_fraction p = true -> selected_container p = Selected ty i c ->
+    let p2 := mutate idx fresh' (mutate idx fresh p) in
+    (exists c', selected_container p2 = Selected ty i c' /\ c_name c' = c_name c)
+    /\ carries_sharing_refs idx p2 = true
+    /\ exists s', prebind idx true cdi ids portion p2 s = Some s'
+                  /\ materialised p2 s' (visible_devices cdi ids) portion = true.
+Proof. exact materialised_after_repeated_mutation. Qed.
+Print Assumptions C19_materialised_after_repeated_mutation.
+
+(** The scheduler and the binder see the MUTATED pod: the mutation changes neither the
+    validation verdicts nor the scheduler's reading of the request ... *)
+Theorem C19_mutation_preserves_request :
+  forall (sharing_enabled : bool) (pf : string -> pfres) (idx : ctype -> nat -> string) (fresh : string) (p : gpod),
+    validate_gpu_requests pf (mutate idx fresh p) = validate_gpu_requests pf p
+    /\ admission_validate sharing_enabled pf (mutate idx fresh p) = admission_validate sharing_enabled pf p
+    /\ scheduler_interpret pf (mutate idx fresh p) = scheduler_interpret pf p.
+Proof. exact mutation_preserves_request. Qed.
+Print Assumptions C19_mutation_preserves_request.
+
+(** ... so the binder's validation (ValidateGpuRequests) accepts every admitted pod. *)
+Theorem C19_binder_validates_admitted :
+  forall (sharing_enabled : bool) (pf : string -> pfres) (idx : ctype -> nat -> string) (fresh : string) (p : gpod),
+    admission_validate sharing_enabled pf p = true ->
+    validate_gpu_requests pf (mutate idx fresh p) = true.
+Proof. exact binder_validates_admitted. Qed.
+Print Assumptions C19_binder_validates_admitted.
+
+(** The clause is needed: a resolver that hands out a COPY of a named init container
+    ([mutate_editing_a_copy], not the code) keeps type, index and name of the selection and
+    is still accepted, but the admitted pod's selected container carries no reference, the
+    binder writes the devices into a map nothing reads, and the container starts with
+    neither NVIDIA_VISIBLE_DEVICES nor GPU_PORTION.  Witness by computation on a pod whose
+    named fraction container is the second init container. *)
+Theorem C19_editing_a_copy_refuted :
+  let good := mutate idx_str "train-abcdefg-shared-gpu" ex_init_pod in
+  let bad := mutate_editing_a_copy idx_str "train-abcdefg-shared-gpu" ex_init_pod in
+  selected_container ex_init_pod = Selected InitC 1%nat (ex_cont "warmup")
+  /\ admission_validate true ex_pf bad = true
+  /\ carries_sharing_refs idx_str good = true
+  /\ (exists s', prebind idx_str true false ["3"%string] "0.50" good [] = Some s'
+                 /\ materialised good s' "3" "0.50" = true)
+  /\ selected_container bad = Selected InitC 1%nat (ex_cont "warmup")
+  /\ carries_sharing_refs idx_str bad = false
+  /\ (exists s', prebind idx_str true false ["3"%string] "0.50" bad [] = Some s'
+                 /\ materialised bad s' "3" "0.50" = false
+                 /\ eff_env s' (ex_cont "warmup") nvidia_visible_devices = EUnset
+                 /\ eff_env s' (ex_cont "warmup") gpu_portion_env = EUnset
+                 /\ lookup "train-abcdefg-shared-gpu-i1-evar"%string s' = Some [(nvidia_visible_devices, "3"%string)]).
+Proof. exact ex_editing_a_copy. Qed.
+Print Assumptions C19_editing_a_copy_refuted.
